@@ -514,7 +514,7 @@ def explicit_raises(g: C.CFG) -> List[int]:
     return [n for n in g.nodes() if g.kind[n] == "raise"]
 
 
-def fn(repo: Repo, spec: str, depth: int = 4, also=None) -> FuncInfo:
+def fn(repo: Repo, spec: str, depth: int = 8, also=None) -> FuncInfo:
     """the function with its private helpers inlined (sa.inline); findings are reported against `spec`"""
     from .inline import flatten
     return flatten(repo, repo.func(spec), depth, also)
